@@ -160,3 +160,33 @@ Theorem C07_packing_limit_refuted :
   /\ unparse_row r4_ty r4_v [[108%N]] [] = Err EJoin.
 Proof. exact packing_limit_refuted. Qed.
 Print Assumptions C07_packing_limit_refuted.
+
+(* 5. the file leg, one cell at a time: RowDataSheet.export(filename, "xlsx") + XLSXSheetReader (Io/XlsxCell.v, tied to
+      the code by the probe xlsx_export_text_cells and by the harness's cell stream, engine 107 fn 8).
+      Finding xlsx-cell-starting-with-equals-sign: the full statement is decided by the probe. *)
+From RPFT Require Import Io.XlsxCell Io.XlsxCellFacts.
+
+Theorem C07_xlsx_text_survives_decided :
+  if xlsx_export_text_cells
+  then forall s, xlsx_cell_roundtrip s = s
+  else ~ (forall s, xlsx_cell_roundtrip s = s).
+Proof. exact xlsx_text_survives_decided. Qed.
+Print Assumptions C07_xlsx_text_survives_decided.
+
+(* what comes back, on either tree: everything but a text "=…" of two or more characters *)
+Theorem C07_xlsx_cell_roundtrip_spec : forall s,
+  xlsx_cell_roundtrip s = if is_formula_text s && negb xlsx_export_text_cells then [] else s.
+Proof. exact xlsx_cell_roundtrip_spec. Qed.
+Print Assumptions C07_xlsx_cell_roundtrip_spec.
+
+Theorem C07_xlsx_formula_witness :
+  is_formula_text w_formula_text = true
+  /\ xlsx_cell_roundtrip w_formula_text = (if xlsx_export_text_cells then w_formula_text else [])
+  /\ xlsx_cell_roundtrip [c_equals] = [c_equals].
+Proof. exact xlsx_formula_witness. Qed.
+Print Assumptions C07_xlsx_formula_witness.
+
+Theorem C07_xlsx_row_survives_repaired :
+  xlsx_export_text_cells = true -> forall cells : list str, map xlsx_cell_roundtrip cells = cells.
+Proof. exact xlsx_row_survives_repaired. Qed.
+Print Assumptions C07_xlsx_row_survives_repaired.
